@@ -245,7 +245,7 @@ func (m *scanModel) atomName(a *Expr) (name string, flip bool) {
 				switch {
 				case strings.HasPrefix(x.String(), gorStr) || strings.HasPrefix(x.String(), "append("+gorStr):
 					return "loop:goroutines", false
-				case x.calleeIs("bytes", "Split"):
+				case x.calleeIs("bytes", "Split") || isItemsTail(x):
 					return "loop:items", false
 				}
 				return "loop:" + x.Canon(m.hook), false
@@ -328,7 +328,7 @@ func (m *scanModel) atomName(a *Expr) (name string, flip bool) {
 // isItem: element k >= 1 of the comma separated header items.
 func isItem(x *Expr) bool {
 	if x.Op == OpInit || (x.Op == OpUn && x.Tok == token.MUL) {
-		if ia := x.Args[0]; ia.Op == OpIndexAddr && ia.Args[0].calleeIs("bytes", "Split") {
+		if ia := x.Args[0]; ia.Op == OpIndexAddr && (ia.Args[0].calleeIs("bytes", "Split") || isItemsTail(ia.Args[0])) {
 			return true
 		}
 	}
@@ -1213,6 +1213,15 @@ func (m *scanModel) checkIndex(cfg smConfig, f *smConfig, p *Path, t *smTrans, e
 				}
 			}
 		}
+		// any collection: a constant index below a length test made on this path
+		if k, ok := ix.intConst(); ok && k >= 0 {
+			if v, ok := p.lit(fmt.Sprintf("(%d < len(%s))", k, cs)); ok && v {
+				return
+			}
+			if v, ok := p.lit("(len(" + cs + ") == 0)"); ok && !v && k == 0 {
+				return
+			}
+		}
 		problem("SM-deref", key("index:"+coll.Canon(m.hook)), "index not provably in range: "+coll.Canon(m.hook)+"["+ix.Canon(m.hook)+"]", ev.Pos)
 	}
 }
@@ -1859,4 +1868,9 @@ func checkExclusions(c *Ctx, ref *refAutomaton) []Obl {
 		obls = append(obls, Obl{Rule: "SM-ref", Key: key, Status: st, Msg: why})
 	}
 	return obls
+}
+
+// isItemsTail: items[1:] - the header items behind the state.
+func isItemsTail(x *Expr) bool {
+	return x != nil && x.Op == OpSlice && len(x.Args) == 4 && x.Args[0].calleeIs("bytes", "Split") && x.Args[1] != nil && x.Args[2] == nil
 }
